@@ -192,8 +192,18 @@ fn word_of<T>(w: &str, rd: impl Fn(&mut rl2tp::common::SliceReader) -> Result<T,
     rd(&mut r).ok()
 }
 
+/// A value as a caller may well hold it: with spare capacity behind its contents (about half of them; how much
+/// depends on the contents only).  Capacity is not part of the value and may not show in what is encoded.
+fn roomy(mut v: Vec<u8>) -> Vec<u8> {
+    let k = v.iter().fold(v.len(), |a, &b| a.wrapping_mul(31).wrapping_add(b as usize));
+    if k % 2 == 0 {
+        v.reserve_exact(1 + k % 13);
+    }
+    v
+}
+
 fn utf8(s: &str) -> Option<String> {
-    String::from_utf8(unhex(s)?).ok()
+    String::from_utf8(roomy(unhex(s)?)).ok()
 }
 
 fn arr<const N: usize>(s: &str) -> Option<[u8; N]> {
@@ -293,39 +303,39 @@ pub fn to_crate(t: &TAvp) -> Option<AVP> {
         }
         "HostName" => {
             need(1)?;
-            AVP::HostName(types::HostName::from(unhex(&a[0])?))
+            AVP::HostName(types::HostName::from(roomy(unhex(&a[0])?)))
         }
         "Challenge" => {
             need(1)?;
-            AVP::Challenge(types::Challenge::from(unhex(&a[0])?))
+            AVP::Challenge(types::Challenge::from(roomy(unhex(&a[0])?)))
         }
         "InitialReceivedLcpConfReq" => {
             need(1)?;
-            AVP::InitialReceivedLcpConfReq(types::InitialReceivedLcpConfReq::from(unhex(&a[0])?))
+            AVP::InitialReceivedLcpConfReq(types::InitialReceivedLcpConfReq::from(roomy(unhex(&a[0])?)))
         }
         "LastSentLcpConfReq" => {
             need(1)?;
-            AVP::LastSentLcpConfReq(types::LastSentLcpConfReq::from(unhex(&a[0])?))
+            AVP::LastSentLcpConfReq(types::LastSentLcpConfReq::from(roomy(unhex(&a[0])?)))
         }
         "LastReceivedLcpConfReq" => {
             need(1)?;
-            AVP::LastReceivedLcpConfReq(types::LastReceivedLcpConfReq::from(unhex(&a[0])?))
+            AVP::LastReceivedLcpConfReq(types::LastReceivedLcpConfReq::from(roomy(unhex(&a[0])?)))
         }
         "ProxyAuthenName" => {
             need(1)?;
-            AVP::ProxyAuthenName(types::ProxyAuthenName::from(unhex(&a[0])?))
+            AVP::ProxyAuthenName(types::ProxyAuthenName::from(roomy(unhex(&a[0])?)))
         }
         "ProxyAuthenChallenge" => {
             need(1)?;
-            AVP::ProxyAuthenChallenge(types::ProxyAuthenChallenge::from(unhex(&a[0])?))
+            AVP::ProxyAuthenChallenge(types::ProxyAuthenChallenge::from(roomy(unhex(&a[0])?)))
         }
         "ProxyAuthenResponse" => {
             need(1)?;
-            AVP::ProxyAuthenResponse(types::ProxyAuthenResponse::from(unhex(&a[0])?))
+            AVP::ProxyAuthenResponse(types::ProxyAuthenResponse::from(roomy(unhex(&a[0])?)))
         }
         "PrivateGroupId" => {
             need(1)?;
-            AVP::PrivateGroupId(types::PrivateGroupId::from(unhex(&a[0])?))
+            AVP::PrivateGroupId(types::PrivateGroupId::from(roomy(unhex(&a[0])?)))
         }
         "VendorName" => {
             need(1)?;
@@ -385,7 +395,7 @@ pub fn to_crate(t: &TAvp) -> Option<AVP> {
         }
         "Hidden" => {
             need(2)?;
-            AVP::Hidden(types::Hidden { attribute_type: a[0].parse().ok()?, value: unhex(&a[1])? })
+            AVP::Hidden(types::Hidden { attribute_type: a[0].parse().ok()?, value: roomy(unhex(&a[1])?) })
         }
         _ => return None,
     })
